@@ -218,6 +218,110 @@ pub fn prop(case: &Case) -> Outcome {
     o
 }
 
+
+// ---------------------------------------------------------------------------------------------
+// part 3: two cycles on one datastore; roles re-issued under an unchanged version number
+
+#[derive(Clone, Debug, Serialize, Deserialize, PartialEq, Eq)]
+pub struct ReissueCase {
+    pub consistent: bool,
+    /// snapshot, targets, d1, d2: keep the version number of the first state but change the content
+    pub same_version: [bool; 4],
+    pub pin_deleg_len: bool,
+}
+
+fn reissue_state(case: &ReissueCase, second: bool) -> forge::Built {
+    let mut sp = Simple::basic(case.consistent);
+    let bump = |i: usize| if second && !case.same_version[i] { 1 } else { 0 };
+    let tag = if second { "second" } else { "first" };
+    sp.ts_version = if second { 2 } else { 1 };
+    sp.snap_version = 11 + bump(0);
+    sp.targets_version = 21 + bump(1);
+    sp.targets = vec![(format!("top-{tag}.txt"), tag.as_bytes().to_vec())];
+    let mut d2 = DelegNode::new("d2", 5, PathSpec::Paths(vec!["d/e/*".into()]));
+    d2.version = 41 + bump(3);
+    d2.targets = vec![(format!("d/e/{tag}.txt"), tag.as_bytes().to_vec())];
+    let mut d1 = DelegNode::new("d1", 4, PathSpec::Paths(vec!["d/*".into()]));
+    d1.version = 31 + bump(2);
+    d1.targets = vec![(format!("d/{tag}.txt"), tag.as_bytes().to_vec())];
+    d1.children = vec![d2];
+    sp.delegs = vec![d1];
+    sp.pin_deleg_len = case.pin_deleg_len;
+    sp.snapshot_extra = vec![("issue".into(), json!(tag))];
+    sp.build()
+}
+
+pub fn reissue_prop(case: &ReissueCase) -> Outcome {
+    let mut o = Outcome::new();
+    crate::rt::set_now(crate::rt::t0());
+    o.shape = format!("{:?}", case);
+    o.nontrivial = case.same_version.iter().any(|x| *x);
+    let store = tempfile::tempdir().expect("tempdir");
+    let opts = LoadOpts { datastore: Some(store.path().to_path_buf()), ..Default::default() };
+    let a = reissue_state(case, false);
+    let b = reissue_state(case, true);
+    let mem = MemTransport::new();
+    a.install_meta(&mem);
+    if let Err(e) = forge::load(&mem, &a.shipped(1), &opts) {
+        o.fail(format!("first cycle failed: {e}"));
+        return o;
+    }
+    let mem2 = MemTransport::new();
+    b.install_meta(&mem2);
+    let repo = match forge::load(&mem2, &b.shipped(1), &opts) {
+        Ok(r) => r,
+        Err(e) => {
+            o.fail(format!("second cycle (a consistent, correctly signed, newer repository; same_version = {:?}) failed: {e}", case.same_version));
+            return o;
+        }
+    };
+    // what the client trusts now must be what the second cycle's pinning documents describe
+    let names = |t: &tough::schema::Targets| -> Vec<String> {
+        let mut v: Vec<String> = t.targets.keys().map(|n| n.raw().to_string()).collect();
+        v.sort();
+        v
+    };
+    let top = &repo.targets().signed;
+    let checks: Vec<(&str, Vec<String>, Vec<String>)> = vec![
+        ("targets", names(top), vec!["top-second.txt".to_string()]),
+        ("d1", top.delegated_targets("d1").map(|s| names(&s.signed)).unwrap_or_default(), vec!["d/second.txt".to_string()]),
+        ("d2", top.delegated_targets("d2").map(|s| names(&s.signed)).unwrap_or_default(), vec!["d/e/second.txt".to_string()]),
+    ];
+    for (role, got, want) in checks {
+        if got != want {
+            o.fail(format!(
+                "after the second cycle the client trusts a {role} document listing {got:?}; the snapshot it trusts pins the document listing {want:?} (re-issued under the same version: {:?})",
+                case.same_version
+            ));
+            return o;
+        }
+    }
+    if repo.snapshot().signed._extra.get("issue") != Some(&json!("second")) {
+        o.fail("after the second cycle the client trusts the first cycle's snapshot".to_string());
+        return o;
+    }
+    // the trusted targets document has the digest the trusted snapshot lists
+    let served = b.meta.iter().find(|(f, _)| f.ends_with("targets.json")).map(|(_, bytes)| sha256_hex(bytes)).unwrap_or_default();
+    let listed = repo.snapshot().signed.meta.get("targets.json").and_then(|m| m.hashes.as_ref()).map(|h| hex::encode(&h.sha256)).unwrap_or_default();
+    if served != listed {
+        o.fail(format!("snapshot lists digest {listed} for targets.json, the file of that state has {served}"));
+    }
+    o.label("reissue-loaded");
+    o
+}
+
+fn reissue_cases() -> Vec<ReissueCase> {
+    let mut v = Vec::new();
+    for consistent in [false, true] {
+        for m in 0..16u8 {
+            for pin in [false, true] {
+                v.push(ReissueCase { consistent, same_version: [m & 1 != 0, m & 2 != 0, m & 4 != 0, m & 8 != 0], pin_deleg_len: pin });
+            }
+        }
+    }
+    v
+}
+
 fn variant() -> impl Strategy<Value = Variant> {
     prop_oneof![6 => Just(Variant::Same), 1 => Just(Variant::Pretty), 1 => Just(Variant::ExtraSig), 1 => Just(Variant::TrailingNewline), 2 => Just(Variant::Reordered)]
 }
@@ -308,9 +412,22 @@ pub fn check(ctx: &Ctx) -> Vec<PartReport> {
             ],
         },
     ));
+    out.push(run_part(
+        ctx,
+        PartSpec {
+            name: "reissued",
+            rule: "EXHAUSTIVE: two cycles on one datastore; the second repository state re-issues every subset of {snapshot, targets, depth-1 role, depth-2 role} with new content under an UNCHANGED version number (the others get the next version), everything consistent and correctly signed with digest and length pins; both snapshot modes, delegated length pins on/off (64 cases). Oracle: the second cycle succeeds and what the client then trusts (listings of targets and both delegated roles, the snapshot) is what the documents pinned in that cycle contain. Non-trivial: some role keeps its version; distinct = case",
+            mode: Mode::Enumerate { cases: reissue_cases(), complete: true },
+            prop: Box::new(reissue_prop),
+            require: vec![("reissue-loaded", 32)],
+        },
+    ));
     out
 }
 
-pub fn replay(_ctx: &Ctx, _part: &str, case: &Value) -> Outcome {
+pub fn replay(_ctx: &Ctx, part: &str, case: &Value) -> Outcome {
+    if part == "reissued" {
+        return crate::engine::replay_case::<ReissueCase>(case, reissue_prop);
+    }
     crate::engine::replay_case::<Case>(case, prop)
 }
